@@ -92,6 +92,10 @@ inductive Op where
       a `WithdrawLiquidity` hook arriving from a token that is not the LP token (`kind = 1`), a `Swap`
       hook arriving from a token that is not one of the pool assets (`kind = 2`) -/
   | foreign (kind u amt : Nat)
+  /-- `ProvideLiquidity` naming asset `k` with the WRONG kind — a native asset as
+      `Token { contract_addr: <denom> }`, a cw20 asset as `NativeToken { denom: <address> }` — the other
+      asset named correctly with its native coins attached -/
+  | provideBad (u d0 d1 k : Nat)
 deriving Repr, DecidableEq
 
 def St.user (s : St) (u : Nat) : User := s.users.getD u { a := 0, b := 0, lp := 0 }
@@ -229,6 +233,21 @@ def provide (cv : Curve) (s : St) (u rcv d0 d1 : Nat) (tol : Option Nat) : Res S
   let r := s1.user rcv
   pure (s1.setUser rcv { r with lp := r.lp + share })
 
+/-- `ProvideLiquidity` with asset `k` named with the wrong kind. A `Token`-typed entry passes
+    `assert_sent_native_token_balance` unchecked and then matches no pool asset: `.expect("Wrong asset
+    info is given")` panics. A `NativeToken`-typed entry whose "denom" is a contract address finds no such
+    coin attached: refused unless its amount is zero (then the same `expect` panics). -/
+def provideBad (s : St) (u d0 d1 k : Nat) : Res St := do
+  guardErr (decide (u < s.users.length ∧ k ≤ 1))
+  let usr := s.user u
+  -- the bank moves the correctly named asset's attached coins first
+  if k = 0 then do
+    guardErr (!s.x1.native || decide (d1 ≤ usr.b))
+    if s.x0.native then .panic else if d0 = 0 then .panic else .err
+  else do
+    guardErr (!s.x0.native || decide (d0 ≤ usr.a))
+    if s.x1.native then .panic else if d1 = 0 then .panic else .err
+
 /-! ### withdraw_liquidity -/
 
 /-- the two refunds of `withdraw_liquidity`: `(balance − pending) * Decimal::from_ratio(amount, total_share)` -/
@@ -303,6 +322,7 @@ def step (cv : Curve) (s : St) : Op → Res St
   | .donate u w amt => donate s u w amt
   | .swapBad u dir off sent => swapBad cv s u dir off sent
   | .foreign _ _ _ => .err
+  | .provideBad u d0 d1 k => provideBad s u d0 d1 k
 
 /-- run a history; a failed operation leaves the state untouched -/
 def reach (cv : Curve) (s : St) : List Op → St
